@@ -57,7 +57,11 @@ class NNSpacePartitioner:
         v2_onehot[v2] = 1.0
         self.v1 = v1_onehot
         self.v2 = v2_onehot
-        nn = NearestNeighbors(n_neighbors=self.k).fit(D)
+        # the tree computes distances coordinate by coordinate; the brute-force
+        # back end that "auto" selects for large k expands |x|^2 - 2xy + |y|^2 and
+        # loses the neighbour order when values are large relative to their
+        # spacing (e.g. timestamps)
+        nn = NearestNeighbors(n_neighbors=self.k, algorithm="kd_tree").fit(D)
         # TODO: maybe we can gain performance by performing operations using the returned
         # scipy.sparse array, as opposed to converting this way.
         M_adj = nn.kneighbors_graph(D).toarray()
